@@ -52,6 +52,7 @@ def main():
     ap.add_argument("--tier", default="quick")
     ap.add_argument("--only")
     ap.add_argument("--no-store", action="store_true")
+    ap.add_argument("--wave", default="", help="infix for the stored directory name, e.g. w4 -> seeded/C02-w4-1")
     a = ap.parse_args()
     checks = a.checks.split(",") if a.checks else [a.pid]
     ks = sorted(f[5:-5] for f in os.listdir(a.outdir) if f.startswith("patch") and f.endswith(".diff"))
@@ -103,7 +104,7 @@ def main():
             for c, v in rec["checks"].items():
                 print(f"    {c}: exit={v['exit']} {v['monitors'][:2]}")
             if rec["confirmed"] and not a.no_store:
-                dst = os.path.join(HERE, "seeded", f"{a.pid}-{k}")
+                dst = os.path.join(HERE, "seeded", f"{a.pid}-{a.wave + '-' if a.wave else ''}{k}")
                 os.makedirs(dst, exist_ok=True)
                 shutil.copy(patch, os.path.join(dst, "patch.diff"))
                 shutil.copy(demo, os.path.join(dst, "demo.py"))
